@@ -1269,6 +1269,26 @@ func main() {
 		// a dataset created through the follower is placed on members only
 		create(b, 3, 3)
 		observe(ps, "create")
+	case "rejoin-overtaken":
+		// a member restarts and repeats the join hand-shake, as every start does; the member's reply (its address
+		// book at that moment) is processed late, after a newer join has already reached the restarted member through
+		// the log: the reply has to be merged into the book, it must not replace it
+		b.kill()
+		done := make(chan bool, 1)
+		go func() { done <- b.start("VERIF_JOIN_REPLY_DELAY_MS=4000") }()
+		time.Sleep(1500 * time.Millisecond)
+		d := mk(4, "127.0.0.1:"+a.port)
+		okd := d.start()
+		okv := 0
+		if okd {
+			okv = 1
+			ps = append(ps, d)
+		}
+		emit(event{"ev": "joined", "node": 4, "addr": ":" + d.port, "ok": okv})
+		<-done
+		observe(ps, "restart")
+		create(b, 2, 2)
+		observe(ps, "create")
 	case "leave":
 		ctx, cancel := context.WithTimeout(context.Background(), 5*time.Second)
 		_, err := pb.NewNodesManagerClient(a.conn).RemoveNode(ctx, &pb.Node{Id: 3})
